@@ -647,7 +647,7 @@ func checkC04(c *Ctx) {
 	// the same contract while the cache content flips underneath the request: a
 	// Spec file alternates between "a only" and "b only"; a request for both is
 	// unresolvable in every content the cache ever has
-	c.RunCases("flip", c.pick(6, 40), 0, func(cs *Case) {
+	c.RunCases("flip", c.pick(12, 40), 0, func(cs *Case) {
 		root := filepath.Join(c.Scratch, sanitize(cs.Name))
 		must(os.MkdirAll(root, 0o755))
 		defer os.RemoveAll(root)
@@ -677,7 +677,20 @@ func checkC04(c *Ctx) {
 				}
 			}
 		}()
+		// (one of the two names several times first: the lookups of one request then span
+		// more time, and a refresh anywhere in between shows)
 		req := []string{"flip.org/dev=a", "flip.org/dev=b"}
+		if cs.R.Intn(3) > 0 {
+			first, last := "flip.org/dev=a", "flip.org/dev=b"
+			if cs.R.Intn(2) == 0 {
+				first, last = last, first
+			}
+			req = nil
+			for k := 0; k < 3+cs.R.Intn(6); k++ {
+				req = append(req, first)
+			}
+			req = append(req, last)
+		}
 		for i := 0; i < c.pick(3000, 20000); i++ {
 			spec := &oci.Spec{Process: &oci.Process{Env: []string{"KEEP=1"}}}
 			unres, err := cache.InjectDevices(spec, req...)
